@@ -73,7 +73,15 @@ def make(oid, gname, kind, lead, hist, dtype="float", tiers=("quick", "thorough"
         saved = gg["get_all_face_area_from_coords"]
         gg["get_all_face_area_from_coords"] = area_kernel
         try:
-            g = C.clone_grid(symnp.array(rows), lon, lat)
+            extra = None
+            if hist == "supplied":
+                # the source ships its own per-face areas (as MPAS areaCell): arbitrary positive reals unrelated to any quadrature
+                sup = [z3.Real(f"supplied_area_{f}") for f in range(len(rows))]
+                for a_ in sup:
+                    ctx.solver.add(a_ > 0, a_ <= 13)
+                ctx.eng.declare("supplied", sup)
+                extra = {"face_areas": symxr.DataArray(C.sarr_1d(sup, symnp.float64), dims=["n_face"])}
+            g = C.clone_grid(symnp.array(rows), lon, lat, extra=extra)
             if hist == "compute":
                 g.compute_face_areas(rule0, order0.concrete() if False else order0)
             elif hist == "face_areas":
@@ -109,11 +117,22 @@ def make(oid, gname, kind, lead, hist, dtype="float", tiers=("quick", "thorough"
             exp = z3.Sum([A(f, r, o) * (z3.ToReal(vals[i * L + f]) if dtype != "float" else vals[i * L + f]) for f in range(L)])
             ctx.prove(f"out[{i}] = sum_f area_f(rule,order) * v[{i},f]", _real(got[i]) == exp)
         ctx.reachable("integrated")
+        # 'integrating the constant 1 gives the grid's total area': the total for the same rule and order is the sum of the same areas
+        gg["get_all_face_area_from_coords"] = area_kernel
+        try:
+            tot = g.calculate_total_face_area(rule, order)
+        finally:
+            gg["get_all_face_area_from_coords"] = saved
+        ctx.prove("calculate_total_face_area(rule, order) = sum_f area_f(rule, order) = integral of the constant 1", _real(tot) == z3.Sum([A(f, r, o) for f in range(L)]))
 
     def replay(v):
         import uxarray as ux
         from uxarray.grid.area import get_all_face_area_from_coords
-        g = C.real_grid(rows, lon, lat)
+        extra = None
+        if hist == "supplied":
+            import xarray as xr
+            extra = {"face_areas": xr.DataArray(np.array([float(x) for x in v["supplied"]]), dims=["n_face"])}
+        g = C.real_grid(rows, lon, lat, extra=extra)
         rule, order = RULES[v["rule"]], ORDERS[v["order"]]
         if hist == "compute":
             g.compute_face_areas(RULES[v["rule0"]], ORDERS[v["order0"]])
@@ -137,6 +156,10 @@ def make(oid, gname, kind, lead, hist, dtype="float", tiers=("quick", "thorough"
             return f"result dims/name/grid wrong: {out.dims} {out.name}"
         if np.asarray(out.values).shape != tuple(lead) or not np.allclose(np.asarray(out.values, dtype=float), exp, rtol=1e-9, atol=1e-12):
             return f"integrate({rule},{order}) after history {hist}({RULES[v['rule0']]},{ORDERS[v['order0']]}) = {np.asarray(out.values).tolist()}, expected {exp.tolist()} (dtype {dtype})"
+        tot = float(g.calculate_total_face_area(rule, order))
+        if abs(tot - float(areas.sum())) > 1e-9 * max(1.0, float(areas.sum())):
+            return (f"calculate_total_face_area({rule},{order}) after history {hist} = {tot!r}, the sum of the face areas for that rule and order "
+                    f"(= integral of the constant 1) is {float(areas.sum())!r}")
         return None
 
     return Obligation(oid, f"integrate on grid '{gname}' {sizes}, data on {kind} with leading dims {tuple(lead)}, dtype {dtype}, history {hist}",
@@ -190,6 +213,7 @@ def obligations(tier):
         make("C06.face.mixed.3d.hist_face_areas", "mixed", "n_face", (2, 2), "face_areas"),
         make("C06.face.mixed.1d.hist_total", "mixed", "n_face", (), "total"),
         make("C06.face.mixed.2d.int", "mixed", "n_face", (2,), "none", dtype="int"),
+        make("C06.face.mixed.1d.supplied_areas", "mixed", "n_face", (), "supplied"),
         make("C06.node.tetra.1d", "tetra", "n_node", (), "none"),           # n_node == n_face
         make("C06.node.tri3.2d", "tri3", "n_node", (2,), "none"),           # all three counts coincide
         make("C06.edge.tri3.1d", "tri3", "n_edge", (), "none"),
